@@ -4,7 +4,7 @@ from .lib.match import *
 from .lib.facts import VERIF
 from .lib.paths import explore
 
-SELECT = r'^bluetoe::server::(l2cap_input|handle_\w+|error_response|check_size_and_handle_range|check_size_and_handle|check_handle|read_multiple\w*|collect_handle_uuid_tuples)$|^bluetoe::details::(read_handle|read_16bit|write_opcode)$|^bluetoe::details::(collect_attributes|collect_find_by_type_groups)::operator\(\)$|^bluetoe::service::read_primary_service_response$'
+SELECT = r'^bluetoe::server::(l2cap_input|handle_\w+|error_response|check_size_and_handle_range|check_size_and_handle|check_handle|read_multiple\w*|collect_handle_uuid_tuples)$|^bluetoe::details::(read_handle|read_16bit|write_opcode)$|^bluetoe::details::(collect_attributes|collect_find_by_type_groups)::operator\(\)$|^bluetoe::service::read_primary_service_response$|^bluetoe::details::generate_attribute::access$|^bluetoe::details::attribute_value_read\w*$|characteristic_value_access$'
 UNITS = lambda u: u in ('w_inst_att', 'w_inst_enc') or u.startswith('t_att_') or u.startswith('t_server')
 SV = 'bluetoe::server::'
 META = {
@@ -139,6 +139,21 @@ def run(chk, facts, tier):
     chk.rule('input-read-covered', 'every constant-offset read of the input PDU is dominated by length tests that imply in_size >= offset + width', floor=15)
     chk.rule('helper-size-arguments', 'the instantiated size arguments of check_size_and_handle_range<A,B> / check_size_and_handle<A,B> cover the bytes those helpers read (>= 5 / >= 3) and they reject other lengths', floor=4)
     chk.rule('output-write-bounded', 'constant-index writes to the output lie below the minimum MTU (23) and every out_size store has a bounded form', floor=12)
+    chk.rule('compare-read-bounded', 'attribute access functions that compare a request value (compare_value: Find By Type Value) read args.buffer with std::equal only where the same condition or a dominating '
+             'test established args.buffer_size == the compared length (the value comes straight from the request PDU)', floor=2)
+    n_cmp = 0
+    for fn in facts.functions:
+        if fn.kind not in ('pattern', 'plain') or '/tests/' in (fn.file or ''):
+            continue
+        for c in fn.body.calls('equal'):
+            if len(c.args()) != 3 or 'buffer' not in strip_casts(c.args()[2]).text():
+                continue
+            n_cmp += 1
+            ats = guard_atoms(fn, c) + [a for cnd, o in must_hold(c) for a in atoms(cnd, o)]
+            okc = any(op == '==' and (('buffer_size' in (l.text() if not isinstance(l, int) else '')) or ('buffer_size' in (r.text() if not isinstance(r, int) else ''))) for l, op, r in ats)
+            chk.instance('compare-read-bounded', fn, '%s::%s: std::equal(.., %s)' % (fn.q.split('::')[-2], fn.name, strip_casts(c.args()[2]).text()[:30]), okc,
+                         '' if okc else 'the request value is compared over the full length of the stored value before (or without) testing args.buffer_size: a shorter value in the request makes the server read behind the received PDU', node=c,
+                         key='%s::%s' % (fn.q.split('::')[-2], fn.name))
     chk.rule('range-writer-bounded', 'the response range writers (Read By Type, Find By Type Value, Read By Group Type, Find Information tuples): a remaining-space expression is reduced by a header size only where a dominating test (or min() with a constant) guarantees it is at least that large (no unsigned wrap), and every write through the cursor is covered by a dominating remaining-space test', floor=4)
     range_writers(chk, facts)
     opc = facts.enum('bluetoe::details::att_opcodes') or {}
